@@ -240,6 +240,17 @@ def c_history(case, ctx):
                                "mask %r, outside points %r (batch_size=%r)" % (m.astype(int).tolist(), is_out.astype(int).tolist(), bs))
             ctx.expect(np.array_equal(before, x), "argument_mutated", "apply_mixed")
             ctx.nontrivial(True)
+            # the same failing values again (same array object, then an equal copy): the outcome depends only on
+            # the values, so it must fail again and name the same points
+            for again, label in ((x, "same_object"), (x.copy(), "equal_copy")):
+                try:
+                    t.apply(again, batch_size=bs)
+                    ctx.fail("out_of_domain.repeat.no_error." + label,
+                             "a second apply of the same out-of-domain values returned a result instead of raising")
+                except TriangleContainmentError as e:
+                    m2 = np.asarray(e.points_outside_source_domain)
+                    ctx.expect(m2.shape == (n,) and np.array_equal(m2.astype(bool), is_out), "out_of_domain.repeat.mask_differs." + label,
+                               "second failure mask %r, outside points %r" % (m2.astype(int).tolist(), is_out.astype(int).tolist()))
             # a failed application must not poison later ones
             if pool:
                 do_apply(pool[0], "apply_after_failed_apply")
@@ -253,7 +264,8 @@ def c_history(case, ctx):
 def s_batch(draw):
     tc = draw(s_tcase())
     spec = _pts_spec(draw, tc, 2, 9)
-    return {"t": tc, "pts": spec, "k": draw(st.sampled_from(["1", "2", "3", "n-1", "n", "n+1", "2n+1"])), "shape": draw(st.booleans())}
+    return {"t": tc, "pts": spec, "k": draw(st.sampled_from(["1", "2", "3", "n-1", "n", "n+1", "2n+1"])), "shape": draw(st.booleans()),
+            "dtype": draw(st.sampled_from(["float64", "float64", "float32", "int64", "int32"]))}
 
 
 def c_batch(case, ctx):
@@ -264,6 +276,12 @@ def c_batch(case, ctx):
         x = objs.bary_points(tc["src"], np.array(t.trilist), case["pts"]["bary"])
     else:
         x = gen.arr(case["pts"]["xy"])
+    # input arrays of other dtypes (integer pixel indices, float32) are legal inputs: values are rounded so that
+    # they are exactly representable; for piecewise affine the points stay the in-domain float64 ones
+    dt = case.get("dtype", "float64")
+    if dt != "float64" and "bary" not in case["pts"]:
+        x = np.round(x).astype(dt) if dt.startswith("int") else x.astype(dt)
+    ctx.event("dtype=%s" % x.dtype)
     n = x.shape[0]
     bs = _bs(case["k"], n)
     ctx.nontrivial(n % bs != 0 or bs > n)
@@ -273,7 +291,13 @@ def c_batch(case, ctx):
         got = t.apply(PointCloud(x), batch_size=bs).points
     else:
         got = t.apply(x, batch_size=bs)
-    ctx.expect(close(got, plain, atol=1e-12 * (1 + np.abs(plain).max())), "batched_differs_from_unbatched", lambda: "batch_size=%d n=%d\n%s" % (bs, n, describe(got, plain)))
+    ctx.expect(close(got, plain, rtol=0, atol=1e-12 * (1 + np.abs(plain).max())), "batched_differs_from_unbatched",
+               lambda: "batch_size=%d n=%d input dtype %s\n%s" % (bs, n, x.dtype, describe(got, plain)))
+    # and both agree with the float64 evaluation of the same values (the input dtype must not leak into the result)
+    ref64 = _build(tc).apply(np.asarray(x, dtype=float))
+    tol = 1e-12 if x.dtype != np.float32 else 1e-5
+    ctx.expect(close(got, ref64, rtol=0, atol=tol * (1 + np.abs(ref64).max())), "batched_result_depends_on_input_dtype",
+               lambda: "input dtype %s\n%s" % (x.dtype, describe(got, ref64)))
 
 
 # ------------------------------------------------------------------------------------------ constrain_to_pointcloud
